@@ -300,7 +300,9 @@ def _crh_sampler(rng):
     n = rng.randint(2, 5)
     return dict(q=_np.array([rng.uniform(0.0001, 0.01) for _ in range(n)]),
                 p=_np.sort(_np.array([rng.uniform(300e2, 1000e2) for _ in range(n)]))[::-1].copy(),
-                t=_np.array([rng.uniform(230, 300) for _ in range(n)]))
+                # whole-Kelvin soundings typed in as integers are admissible profiles, too (integer dtype)
+                t=_np.array([rng.uniform(230, 300) for _ in range(n)]) if rng.random() < 0.6
+                else _np.array([rng.randint(230, 300) for _ in range(n)], dtype=rng.choice([_np.int64, _np.int32])))
 
 
 c_crh.sampler = _crh_sampler
